@@ -37,7 +37,7 @@ def slices(tier):
 
 
 def shards(tier):
-    out = []
+    out = [('history', 0, 0)]
     for name, v in slices(tier).items():
         n = len(v[3])
         per = max(1, n // 64)
@@ -152,8 +152,39 @@ def eval_laws(s, st):
     return bad or None
 
 
+HIST_SHAPES = {
+    's': (('a', space.POK, False), ('c', space.KWO, True), ('d', space.KWO, True)),
+    't': (('a', space.POK, False), ('b', space.POK, True)),
+    'u': (('a', space.POK, False), ('args', VA, False), ('c', space.KWO, True), ('kwargs', VK, False)),
+}
+
+
+def history_world():
+    return dict((k, alg.fresh_sig(v)) for k, v in HIST_SHAPES.items())
+
+
+def history_ops():
+    ops = []
+    for k in sorted(HIST_SHAPES):
+        ops.append(('merge(%s)' % k, lambda w, k=k: S.merge(w[k])))
+        ops.append(('merge(%s, %s)' % (k, k), lambda w, k=k: S.merge(w[k], w[k])))
+        ops.append(('apply_params(%s, *sort_params(%s))' % (k, k), lambda w, k=k: S.apply_params(w[k], *S.sort_params(w[k]))))
+        ops.append(('mask(%s, 0, "c")' % k, lambda w, k=k: S.mask(w[k], 0, 'c')))
+        ops.append(('mask(%s, 1)' % k, lambda w, k=k: S.mask(w[k], 1)))
+        for j in sorted(HIST_SHAPES):
+            if j != k:
+                ops.append(('merge(%s, %s)' % (k, j), lambda w, k=k, j=j: S.merge(w[k], w[j])))
+                ops.append(('forwards(%s, %s, 0, "c")' % (j, k), lambda w, k=k, j=j: S.forwards(w[j], w[k], 0, 'c')))
+    return ops
+
+
 def shard(tier, sh):
     name, i0, i1 = sh
+    if name == 'history':
+        from vf import reuse
+        st = runner.Stats()
+        reuse.pairs(history_world, history_ops(), st, {'op': 'history'}, 'merge-law')
+        return st
     kind, names, nmax, first, other = slices(tier)[name]
     alpha = c01.alphabet(names, nmax)
     st = runner.Stats()
@@ -210,6 +241,10 @@ def run(tier, seed):
 def replay(art):
     case = art['case']
     st = runner.Stats()
+    if case.get('op') == 'history':
+        from vf import reuse
+        reuse.pairs(history_world, [o for o in history_ops() if o[0] in (case['first'], case['second'])], st, {'op': 'history'}, 'merge-law')
+        return [v['detail'] for v in st.viol] or None
     if case['op'] == 'merge-precision':
         names, nmax = case['alphabet']
         a, b = (space.from_json(x) for x in case['inputs'])
